@@ -303,6 +303,70 @@ pub fn anomalies<E: Field>(circuit: &Circuit<E>, events: &[BusEvent], d: usize) 
     out
 }
 
+/// Static look at the rows of the plugin (recompose) tables, for imbalances that only upstream's
+/// lookup debugger / the verifier's terminal-sum check can see: which of the constructs that are
+/// known to unbalance the bus does the circuit contain? Returns e.g.
+/// `recompose/out-also:public`, `recompose-coeff/input-in-2-rows`, or `<flavour>/no-static-cause`
+/// (an imbalance the op list does not explain; never listed as a known finding).
+pub fn npo_static_cause<E: Field>(circuit: &Circuit<E>) -> String {
+    use p3_circuit::Op;
+    use p3_circuit::ops::NpoTypeId;
+    let kinds = slot_kinds(circuit);
+    let mut flavours: Vec<&'static str> = vec![];
+    let mut causes: Vec<String> = vec![];
+    let mut input_rows: BTreeMap<u32, usize> = BTreeMap::new();
+    let mut out_rows: BTreeMap<u32, usize> = BTreeMap::new();
+    for op in &circuit.ops {
+        if let Op::NonPrimitiveOpWithExecutor { inputs, outputs, executor, .. } = op {
+            let t = executor.op_type();
+            let fl = if *t == NpoTypeId::recompose() {
+                "recompose"
+            } else if *t == NpoTypeId::recompose_with_coeff_lookups() {
+                "recompose-coeff"
+            } else {
+                "other-npo"
+            };
+            if !flavours.contains(&fl) {
+                flavours.push(fl);
+            }
+            let mut seen = vec![];
+            for w in inputs.iter().flatten() {
+                if !seen.contains(&w.0) {
+                    seen.push(w.0);
+                    *input_rows.entry(w.0).or_default() += 1;
+                } else {
+                    causes.push("input-twice-in-one-row".into());
+                }
+            }
+            for w in outputs.iter().flatten() {
+                *out_rows.entry(w.0).or_default() += 1;
+                let mut others: Vec<&str> = kinds
+                    .get(w.0 as usize)
+                    .map(|k| k.iter().copied().filter(|x| matches!(*x, "const" | "public" | "private" | "hint-out" | "alu-out" | "horner-out" | "bool-out" | "alu-solved-b")).collect())
+                    .unwrap_or_default();
+                others.sort();
+                others.dedup();
+                if !others.is_empty() {
+                    causes.push(format!("out-also:{}", others.join("+")));
+                }
+                if inputs.iter().flatten().any(|i| i == w) {
+                    causes.push("out-is-own-input".into());
+                }
+            }
+        }
+    }
+    if input_rows.values().any(|n| *n >= 2) {
+        causes.push("input-in-2+-rows".into());
+    }
+    if out_rows.values().any(|n| *n >= 2) {
+        causes.push("out-of-2+-rows".into());
+    }
+    causes.sort();
+    causes.dedup();
+    flavours.sort();
+    format!("{}/{}", flavours.join("+"), if causes.is_empty() { "no-static-cause".to_string() } else { causes.join(",") })
+}
+
 /// Root-cause class of a bus anomaly at `slot`, from a static look at the op list. Used in
 /// signatures so that the known findings (DESIGN.md §6, C09) stay specific:
 /// * `multi-leaf-class`  – the slot is shared (via connect) by >= 2 of {const, public, private
